@@ -65,6 +65,8 @@ def call_split(data, rate, min_dur, max_dur, max_silence, w, style, **extra):
         return list(auditok.split(src, min_dur, max_dur, max_silence, **extra))
     if style == "bytes-aw":
         return list(auditok.split(data, min_dur, max_dur, max_silence, sr=rate, sw=2, ch=1, aw=w, **extra))
+    if style == "region-method":
+        return list(auditok.AudioRegion(data, rate, 2, 1).split(min_dur, max_dur, max_silence, analysis_window=w, **extra))
     return list(auditok.split(data, min_dur, max_dur, max_silence, sr=rate, sw=2, ch=1, analysis_window=w, **extra))
 
 
@@ -156,11 +158,16 @@ def burst_case(ctx, rng, min_dur, max_dur, max_silence, w, rate, max_windows):
             if pat:
                 pats.append(pat)
     for pat in pats:
-        style = rng.choice(("bytes", "bytes-aw", "reader", "reader+aw"))
+        style = rng.choice(("bytes", "bytes-aw", "reader", "reader+aw", "region-method"))
         data = make_audio(pat, block)
+        ragged = 0
+        if block >= 4 and pat and pat[-1][0] == 1 and rng.random() < 0.5:
+            # a shorter final window at end of stream still counts as a window (cut on an even sample so it stays loud)
+            ragged = 2 * rng.randint(1, (block - 1) // 2)
+            data = data[: len(data) - 2 * ragged]
         v = verdicts_of(pat)
         exp = seg(v, n_min, n_max, n_sil, strict, drop)
-        case = {"burst": [min_dur, max_dur, max_silence, w, rate], "pattern": pat, "drop": drop, "strict": strict, "style": style}
+        case = {"burst": [min_dur, max_dur, max_silence, w, rate], "pattern": pat, "drop": drop, "strict": strict, "style": style, "ragged": ragged}
         one_burst(ctx, case, data, v, exp, n_min, n_max, n_sil, block)
 
 
@@ -187,6 +194,8 @@ def one_burst(ctx, case, data, v, exp, n_min, n_max, n_sil, block):
     ctx.case(("burst", case), bool(exp))
     ctx.count("burst_cases")
     ctx.count("burst_style_" + case["style"].split("+")[0].split("-")[0])
+    if case.get("ragged"):
+        ctx.count("bursts_with_a_shorter_final_window")
     if case["style"] == "reader+aw":
         ctx.count("reader_with_conflicting_window_keyword")
     ctx.count("burst_regions_observed", len(got))
@@ -227,8 +236,78 @@ def one_burst(ctx, case, data, v, exp, n_min, n_max, n_sil, block):
         ctx.sample({"case": cj, "regions(first_window,last_window)": got})
 
 
+def overlap_reader_cases(ctx, rng, n):
+    """AudioReader with hop_dur < block_dur handed to split(): w is the reader's BLOCK duration."""
+    for _ in range(n):
+        r = rng.choice((2, 3))
+        hop = rng.choice((2, 4))
+        block = r * hop
+        rate = 100
+        n_min, n_max = sorted((rng.randint(1, 5), rng.randint(2, 8)))
+        n_sil = rng.randint(0, max(0, n_max - 1))
+        if n_sil >= n_max:
+            n_sil = n_max - 1
+        w = block / rate
+        min_dur, max_dur, max_silence = (n_min - 0.5) * w, (n_max + 0.5) * w, ((n_sil + 0.5) * w if n_sil else 0)
+        hops = [rng.choice((0, 0, 1)) if rng.random() < 0.5 else rng.choice((0, 1)) for _ in range(rng.randint(r, 40))]
+        # lengthen runs so that several windows are loud/quiet in a row
+        hops = [x for x in hops for _ in range(rng.choice((1, 2, 3)))][:60]
+        data = make_audio([(x, 1) for x in hops], hop)
+        nh = len(hops)
+        # window i covers hops i..i+r-1; emitted while it holds a new hop
+        nwin = 1 if nh <= r else nh - r + 1
+        v = [1 if any(hops[i : i + r]) else 0 for i in range(nwin)]
+        exp = seg(v, n_min, n_max, n_sil, False, False)
+        case = {"overlap_reader": [block, hop, rate], "hops": "".join(map(str, hops)), "durations": [min_dur, max_dur, max_silence], "model_counts": [n_min, n_max, n_sil]}
+        try:
+            rd = AudioReader(data, block_dur=block / rate, hop_dur=hop / rate, sr=rate, sw=2, ch=1)
+            regions = list(auditok.split(rd, min_dur, max_dur, max_silence))
+        except Exception as exc:
+            ctx.violation("exception:" + type(exc).__name__, {"case": case, "exception": repr(exc)[:200]})
+            continue
+        got = []
+        for reg in regions:
+            a = round(reg.start / (block / rate))
+            nw = -(-len(bytes(reg)) // (block * 2))
+            got.append((a, a + nw - 1))
+        ctx.case(("overlap", repr(case)), bool(exp))
+        ctx.count("overlap_reader_cases")
+        ctx.count("overlap_reader_regions", len(got))
+        if got != exp:
+            ctx.violation("overlap-reader-regions-differ-from-model(block-duration-windows)", {"case": case, "observed": got[:12], "expected": exp[:12]})
+
+
+def large_quotient_cases(ctx, rng, n):
+    """quotients of several hundred windows that are clearly NOT integers (|q - k| >= 2e-8, far outside the 1e-9 rule)."""
+    for _ in range(n):
+        k = rng.choice((100, 250, 500, 999, 1000))
+        w, rate = rng.choice(((0.01, 100), (0.02, 100), (0.05, 100)))
+        delta = rng.choice((2e-8, 5e-8, 1e-6))
+        which = rng.choice(("min_above", "max_below"))
+        if which == "min_above":
+            # min_dur needs k+1 windows: a burst of exactly k windows is too short
+            min_dur, max_dur = (k + delta) * w, (2 * k) * w
+            pat = [(0, 2), (1, k), (0, 2)]
+        else:
+            # max_dur allows only k-1 windows: a burst of k windows is cut after k-1
+            min_dur, max_dur = w, (k - delta) * w
+            pat = [(0, 2), (1, k), (0, 2)]
+        if any(W.in_ambiguous_band(d, w) for d in (min_dur, max_dur)):
+            continue
+        n_min, n_max, n_sil = W.counts(min_dur, max_dur, 0, w)
+        block = W.block_size(w, rate)
+        v = verdicts_of(pat)
+        exp = seg(v, n_min, n_max, 0, False, False)
+        case = {"burst": [min_dur, max_dur, 0, w, rate], "pattern": pat, "drop": False, "strict": False, "style": rng.choice(("bytes", "reader")), "ragged": 0}
+        ctx.count("large_quotient_cases")
+        one_burst(ctx, case, make_audio(pat, block), v, exp, n_min, n_max, 0, block)
+
+
 def run_shard(ctx):
     conf = TIERS[ctx.tier]
+    rng0 = ctx.rng("extra")
+    overlap_reader_cases(ctx, rng0, 30 if ctx.tier == "quick" else 1500)
+    large_quotient_cases(ctx, rng0, 6 if ctx.tier == "quick" else 200)
     # (a) accept / reject grid (exhaustive over the literal grid, partitioned between shards)
     idx = 0
     durs = DUR + BAD
@@ -283,14 +362,17 @@ def replay(ctx, case):
     case.pop("model_counts", None)
     v = verdicts_of(pat)
     exp = seg(v, n_min, n_max, n_sil, case["strict"], case["drop"])
-    one_burst(ctx, case, make_audio(pat, block), v, exp, n_min, n_max, n_sil, block)
+    data = make_audio(pat, block)
+    if case.get("ragged"):
+        data = data[: len(data) - 2 * case["ragged"]]
+    one_burst(ctx, case, data, v, exp, n_min, n_max, n_sil, block)
 
 
 def inconclusive(merged, tier):
     c = merged["counters"]
     return [f"monitor never observed {k}" for k in
             ("accept_grid_accepted", "accept_grid_ValueError", "burst_cases", "burst_regions_observed",
-             "burst_style_bytes", "burst_style_reader", "reader_with_conflicting_window_keyword", "accept_grid_spelling_bytes-aw", "crisp_burst_of_exactly_ceil(min_dur/w)",
+             "burst_style_bytes", "burst_style_reader", "burst_style_region", "bursts_with_a_shorter_final_window", "overlap_reader_regions", "large_quotient_cases", "reader_with_conflicting_window_keyword", "accept_grid_spelling_bytes-aw", "crisp_burst_of_exactly_ceil(min_dur/w)",
              "crisp_burst_of_ceil(min_dur/w)-1", "reject_clause:window shorter than one sample",
              "reject_clause:min_dur needs more windows than max_dur allows",
              "reject_clause:max_silence not below max_dur in windows") if c.get(k, 0) == 0]
